@@ -242,6 +242,8 @@ def plan_visitor(plan):
 
 def attach(schema, base, ids):
     """Resolvers, default resolvers and type resolvers of the base value on an SDL-built schema (public registration API)."""
+    if base.get("sdres"):
+        schema.default_resolver = ids.get(base["sdres"], "resolver")
     for t in base["types"]:
         obj = schema.types.get(t["name"])
         if obj is None:
@@ -260,6 +262,7 @@ def blank_resolvers(val):
     """Expected value of the "sdl" binding: nothing but the @up wrappers (of nothing) exists at build time."""
     import copy
     v = copy.deepcopy(val)
+    v["sdres"] = ""
     for t in v["types"]:
         if t["k"] in ("object", "interface"):
             for f in t["fields"]:
